@@ -113,12 +113,19 @@ class World:
                         v += 1
                     cls['members'].append({'kind': 'enum', 'name': en, 'values': vals})
                 elif kind == 'property':
-                    pn = self.fresh('prop')
+                    # names from a small pool: different classes may use the same property / sequence name
+                    pn = rng.choice(['size', 'value', 'color', 'name_id'])
+                    if ('prop', pn) in used:
+                        continue
+                    used.add(('prop', pn))
                     t = rng.choice(SCALARS)
                     ro = rng.random() < 0.3
                     cls['members'].append({'kind': 'property', 'name': pn, 'type': t, 'getter': 'get_' + pn, 'setter': None if ro else 'set_' + pn})
                 elif kind == 'seq':
-                    sn = self.fresh('items')
+                    sn = rng.choice(['item', 'child', 'point'])
+                    if ('seq', sn) in used:
+                        continue
+                    used.add(('seq', sn))
                     cls['members'].append({'kind': 'seq', 'name': 'get_' + sn + 's', 'length': 'get_num_' + sn + 's', 'element': 'get_' + sn, 'type': rng.choice(SCALARS)})
                 elif kind == 'operator':
                     op = rng.choice(['+', '-', '==', '<', '[]'])
